@@ -1656,6 +1656,7 @@ class Processor:
             unwrapped_lhs = lhs.unwrapped_node
             deepest_lhs = lhs.deepest_node_coord
             append_node = True
+            lhs_dels: List[Any] = []
 
             if lhs.wraps_a(dict):
                 if unwrapped_lhs in rem_data:
@@ -1672,7 +1673,7 @@ class Processor:
                         continue
                     for key, val in rhs.items():
                         if key in unwrapped_lhs and unwrapped_lhs[key] == val:
-                            rem_dels.append((rem_idx, key))
+                            lhs_dels.append(key)
             elif lhs.wraps_a(list):
                 if unwrapped_lhs in rem_data or rem_data == unwrapped_lhs:
                     continue
@@ -1682,6 +1683,7 @@ class Processor:
 
             if append_node:
                 updated_coords.append(deepest_lhs)
+                rem_dels.extend([(rem_idx, key) for key in lhs_dels])
                 rem_idx += 1
         # Remove the subtracted keys from copies of the matched Hashes; the
         # result is virtual and the document itself must not be altered.
